@@ -133,6 +133,16 @@ class RefCycles:
         self.metrics['duration'] = np.array([e - s for s, e in self.segs])
 
 
+def vals_of(op):
+    """The value trace of a compute op: a fresh copy, as a masked array when the op marks rejected samples."""
+    v = np.array(op['vals'], dtype=float, copy=True)
+    if op.get('masked'):
+        m = np.zeros(len(v), dtype=bool)
+        m[list(op['masked'])] = True
+        return np.ma.MaskedArray(v, mask=m)
+    return v
+
+
 def cond_str(c):
     return '%s%s%s' % c
 
@@ -142,7 +152,10 @@ def literal(rng, v):
     v = float(v)
     if v == int(v) and abs(v) < 1e6 and rng.random() < .4:
         return str(int(v))
-    forms = [repr(v), '%.17e' % v]
+    forms = [repr(v), '%.17e' % v, ('%.17e' % v).replace('e', 'E'), ('%.17e' % v).replace('e', 'E')]     # (float() reads e and E alike)
+    if v == int(v) and 10 <= abs(v) < 1e9:
+        s = str(int(v))
+        forms += [s[:-1] + '_' + s[-1], s[:-1] + '_' + s[-1]]                 # digit grouping, as float('1_000') accepts
     if round(v, 1) == v:
         forms += ['%.1f' % v, '%.1e' % v, ('%.2e' % v).replace('e', 'E')]
     return forms[int(rng.integers(len(forms)))]
@@ -224,8 +237,11 @@ def gen_history(rng, ref):
                 vals[rng.integers(0, n, int(rng.integers(1, 4)))] = np.nan       # samples that could not be measured
             mode = 'augmented' if rng.random() < .25 else 'cycle'
             h.append({'op': 'compute', 'name': name, 'func': fn, 'vals': vals, 'mode': mode})
+            if mode == 'cycle' and fn in ('max', 'mean', 'sum') and not np.isnan(vals).any() and rng.random() < .3:
+                # a value trace with rejected samples: a numpy masked array (isolated masked samples; cycles have >= 6 samples)
+                h[-1]['masked'] = sorted(set(int(i) for i in rng.choice(np.arange(0, n, 3), int(rng.integers(1, 6)))))
             if mode == 'cycle':
-                shadow[name] = ref.cycle_metric(vals, FUNCS[fn], 'cycle', None)
+                shadow[name] = ref.cycle_metric(vals_of(h[-1]), FUNCS[fn], 'cycle', None)
                 if name not in names:
                     names.append(name)
             elif name in names:
@@ -357,7 +373,9 @@ def run_history(ctx, phase, hist, case):
         # ---- model transition
         if kind == 'compute':
             if op['mode'] == 'cycle':
-                ref.metrics[op['name']] = ref.cycle_metric(op['vals'], FUNCS[op['func']], 'cycle', None)
+                ref.metrics[op['name']] = ref.cycle_metric(vals_of(op), FUNCS[op['func']], 'cycle', None)
+                if op.get('masked'):
+                    ctx.count('metrics_of_masked_value_traces')
                 aug_metrics.pop(op['name'], None)
             else:
                 aug_metrics[op['name']] = op
@@ -430,7 +448,7 @@ def run_history(ctx, phase, hist, case):
             try:
                 with quiet():
                     if kind == 'compute':
-                        cy.compute_cycle_metric(op['name'], op['vals'].copy(), FUNCS[op['func']], mode=op['mode'])
+                        cy.compute_cycle_metric(op['name'], vals_of(op), FUNCS[op['func']], mode=op['mode'])
                         out = None
                     elif kind == 'add':
                         out = cy.add_cycle_metric(op['name'], op['vals'].copy(), dtype=(int if op['dtype'] == 'int' else None))
